@@ -11,6 +11,7 @@ from common import Check, BASE_TRUST, VERIF  # noqa: E402
 import sim  # noqa: E402
 import campaign as cp  # noqa: E402
 import engine_cases as ec  # noqa: E402
+import engine_group as eg  # noqa: E402
 from engine_trace import mid  # noqa: E402
 from check_C02 import PRE, PROTO_TRUST  # noqa: E402
 
@@ -21,21 +22,44 @@ TRUST = PROTO_TRUST + ["the crash operator of the model requeues unacknowledged 
                        "restart(): a new StateEngine / EventDispatcher with the same instance id on the same store file; requests already at the workers and the reply queue survive"]
 
 
-def run(definition, data, worker_seed, tmpd, crash_after_step=None, crash_at_op=None, max_steps=3000):
+def no_dates(v):
+    """The output of a .sync Task is the child's execution record.  Its start/stop dates are wall-clock values (a restart takes time), and in the
+    configuration simulated here the record store is volatile: after a restart the engine rebuilds the record without the input ("Some history
+    metadata has been lost!", state_engine.py update_execution_history).  Those three fields of a child record are not compared."""
+    if isinstance(v, dict):
+        volatile = ("StartDate", "StopDate", "Input") if "ExecutionArn" in v else ("startDate",) if "executionArn" in v else ()
+        named = ("ExecutionArn", "Name") if "ExecutionArn" in v else ("executionArn",) if "executionArn" in v else ()   # the default child name is the id of the launching event: a counter in this harness
+        return {k: ("<from the volatile record>" if k in volatile else "<event id>" if k in named else no_dates(x)) for k, x in v.items()}
+    if isinstance(v, list):
+        return [no_dates(x) for x in v]
+    return v
+
+
+def at_crash(w):
+    """-> (names of the timers armed at the crash, ids of the Task events that are held unacknowledged although their reply has been handled)"""
+    names = sorted(set(t["name"] for t in w.timers.values() if not t["background"]))
+    replied = set(str(t[3]) for t in w.trace if t[0] == "deliver" and str(t[2]).startswith("asl_workflow_reply_to"))
+    held = sorted(str(m.message_id) for m in w.unacked if str(m._queue).startswith("asl_workflow_events") and str(m.message_id) in replied)
+    return names, held
+
+
+def run(definition, data, worker_seed, tmpd, crash_after_step=None, crash_at_op=None, max_steps=3000, child=None):
     """canonical FIFO schedule; optionally one crash + restart.  -> dict(final, counts, status, steps, ops)"""
     w = sim.World(tmpd)
     w.register(cp.ARN, definition)
+    if child is not None:
+        w.register(eg.CHILD_ARN, child)
     worker = cp.Worker(worker_seed, failures=0.25)
     w.start_execution(cp.ARN, json.loads(json.dumps(data)), name="x0")
     arn = cp.ARN.replace("stateMachine", "execution") + ":x0"
     steps, status, crashed = 0, None, False
     exc = {}
-    pending_at_crash = []
+    pending_at_crash, held_completed = [], []
     if crash_at_op is not None:
         w.crash_at_op = crash_at_op
     while steps < max_steps:
         if crash_after_step is not None and steps == crash_after_step and not crashed:
-            pending_at_crash = sorted(set(t["name"] for t in w.timers.values() if not t["background"]))
+            pending_at_crash, held_completed = at_crash(w)
             w.crash("i1"); w.restart("i1"); crashed = True
         opts = w.enabled()
         for r in w.requests:
@@ -58,7 +82,7 @@ def run(definition, data, worker_seed, tmpd, crash_after_step=None, crash_at_op=
         try:
             w.step(kind, key)
         except sim.CrashNow:
-            pending_at_crash = sorted(set(t["name"] for t in w.timers.values() if not t["background"]))
+            pending_at_crash, held_completed = at_crash(w)
             w.crash("i1"); w.restart("i1"); crashed = True
         except Exception as e:      # noqa
             import traceback
@@ -70,12 +94,33 @@ def run(definition, data, worker_seed, tmpd, crash_after_step=None, crash_at_op=
     for t in w.trace:
         if t[0] == "broadcast" and t[3]["detail"].get("executionArn") == arn and t[3]["detail"]["status"] != "RUNNING":
             d = t[3]["detail"]
-            final = (d["status"], cp.canon(json.loads(d["output"])) if d["status"] == "SUCCEEDED" and d.get("output") is not None else d.get("error"))
+            final = (d["status"], no_dates(cp.canon(json.loads(d["output"]))) if d["status"] == "SUCCEEDED" and d.get("output") is not None else d.get("error"))
     counts = {}
     for t in w.trace:
         if t[0] == "rpc":
             counts[t[3]] = counts.get(t[3], 0) + 1
-    return {"final": final, "status": status or "max_steps", "error": exc.get("error"), "traceback": exc.get("traceback"), "steps": steps, "crashed": crashed, "counts": sorted(counts.values(), reverse=True), "ops": len(w.log_ops), "pending_at_crash": pending_at_crash,
+    # the executions that the engine launched itself: how often each was launched (start events published), and its notifications
+    launched, notes = {}, {}
+    for t in w.trace:
+        if t[0] == "publish" and t[3] == "event" and isinstance(t[5], dict):
+            ctx = t[5].get("context") or {}
+            xa = (ctx.get("Execution") or {}).get("Id")
+            if xa and xa != arn and not (ctx.get("State") or {}).get("Name"):
+                launched[xa] = launched.get(xa, 0) + 1
+        if t[0] == "broadcast" and t[3]["detail"].get("executionArn") != arn:
+            notes.setdefault(t[3]["detail"].get("executionArn"), []).append(t[3]["detail"]["status"])
+    # did a child execution end after the restart, before the first deferred Task call after the restart (the re-registration of the parent's request) ran?
+    child_end_early = False
+    after = False
+    for t in w.trace:
+        if t[0] == "restart":
+            after = True
+        elif after and t[0] == "fire" and t[3] == "asl_state_Task_delegate":
+            break
+        elif after and t[0] == "broadcast" and t[3]["detail"].get("executionArn") != arn and t[3]["detail"]["status"] != "RUNNING":
+            child_end_early = True
+    timed_out = sum(1 for t in w.trace if t[0] == "hist" and t[2] == arn and t[3] in ("TaskTimedOut", "LambdaFunctionTimedOut"))
+    return {"child_ended_before_reregistration": child_end_early, "completed_task_events_held_at_crash": held_completed, "task_timeouts": timed_out, "children_launched": launched, "children_notifications": notes, "final": final, "status": status or "max_steps", "error": exc.get("error"), "traceback": exc.get("traceback"), "steps": steps, "crashed": crashed, "counts": sorted(counts.values(), reverse=True), "ops": len(w.log_ops), "pending_at_crash": pending_at_crash,
             "leftovers": w.leftovers(), "terminal_notifications": sum(1 for t in w.trace if t[0] == "broadcast" and t[3]["detail"].get("executionArn") == arn and t[3]["detail"]["status"] != "RUNNING")}
 
 
@@ -90,10 +135,14 @@ def main():
     tmpd = tempfile.mkdtemp(prefix="lsf_c04_")
     intern = ec.Interner()
 
-    def outcome(final):
+    def outcome(final, racy=False):
         if final is None:
             return "(None, None)"
-        return "(Some %s, Some %d)" % (ST[final[0]], intern(json.dumps(final[1], sort_keys=True)))
+        if racy and final[0] == "FAILED":
+            # several branches of a fan-out can fail; which failure is reported depends on the order in which their replies are handled,
+            # and a restart changes that order: only the status is compared (the error of a failing fan-out is C06's subject)
+            return "(Some Failed, Some 0)"
+        return "(Some %s, Some %d)" % (ST[final[0]], 1 + intern(json.dumps(final[1], sort_keys=True)))
 
     known = ck.known.get("findings", [])
     cases, descs = [], []
@@ -101,38 +150,72 @@ def main():
     scenarios = []
     n_scen = 60 if thorough else 14
     while len(scenarios) < n_scen:
-        kind = rng.choice(["seq", "seq", "fanout"])
-        g = cp.Gen(rng, fanout=(kind == "fanout"), max_depth=1)
-        definition = g.machine(length=rng.randrange(1, 5))
+        kind = rng.choice(["seq", "seq", "fanout", "children"])
+        child = None
+        if kind == "children":
+            definition, child = eg.children_machines(rng)
+        else:
+            g = cp.Gen(rng, fanout=(kind == "fanout"), max_depth=1)
+            definition = g.machine(length=rng.randrange(1, 5))
         data = json.loads(json.dumps(cp.INPUT))
         seed = rng.randrange(10 ** 6)
-        base = run(definition, data, seed, tmpd)
+        base = run(definition, data, seed, tmpd, child=child)
         if base["status"] != "quiescent" or base["final"] is None or base["steps"] < 2:
             continue
-        scenarios.append((kind, definition, data, seed, base))
-    for kind, definition, data, seed, base in scenarios:
+        scenarios.append((kind, definition, data, seed, base, child))
+    # the directed crash points of the known findings F34 and F35 (they run on every seed)
+    directed = json.load(open(os.path.join(VERIF, "corpus", "C04.json")))["directed"]
+    for item in directed:
+        base = run(item["definition"], item["input"], item["worker_seed"], tmpd, child=item.get("child_definition"))
+        scenarios.append((item["scenario"], item["definition"], item["input"], item["worker_seed"], dict(base, only_points=[item["crash_after_step"]]), item.get("child_definition")))
+    child_bad = []
+
+    def children_ok(r, d):
+        """the executions launched by the engine itself: launched once each, none lost"""
+        for xa, n in r["children_launched"].items():
+            if n > 1:
+                child_bad.append(("a child execution was launched more than once (%d start events published for %s)" % (n, xa), d))
+        if r["status"] == "quiescent":
+            for xa, sts in r["children_notifications"].items():
+                if sts and sts[-1] == "RUNNING":
+                    child_bad.append(("after a crash and restart a child execution that had started never reached a terminal status: %s %r" % (xa, sts), d))
+
+    for kind, definition, data, seed, base, child in scenarios:
+        racy = cp.fanout_depth(definition) >= 1
         points = list(range(0, base["steps"] + 1))
-        if not thorough and len(points) > 12:
+        if base.get("only_points"):
+            points = base["only_points"]
+        elif not thorough and len(points) > 12:
             points = sorted(rng.sample(points, 12))
         for k in points:
-            r = run(definition, data, seed, tmpd, crash_after_step=k)
-            d = {"scenario": kind, "definition": definition, "input": data, "worker_seed": seed, "crash": "between handler invocations, after step %d" % k,
+            r = run(definition, data, seed, tmpd, crash_after_step=k, child=child)
+            d = {"scenario": kind, "definition": definition, "child_definition": child, "input": data, "worker_seed": seed, "crash": "between handler invocations, after step %d" % k,
                  "without_crash": base["final"], "with_crash": r["final"], "status": r["status"], "requests_per_correlation_id": r["counts"], "error": r.get("error"),
-                 "leftovers": r.get("leftovers"), "terminal_notifications": r.get("terminal_notifications"), "timers_pending_at_crash": r.get("pending_at_crash")}
-            cases.append("(true, %s, %s, [%s], %s)" % (outcome(base["final"]), outcome(r["final"]), "; ".join(map(str, r["counts"])), "true" if r["status"] == "quiescent" else "false"))
+                 "leftovers": r.get("leftovers"), "terminal_notifications": r.get("terminal_notifications"), "timers_pending_at_crash": r.get("pending_at_crash"),
+                 "child_ended_before_reregistration": r.get("child_ended_before_reregistration"), "completed_task_events_held_at_crash": r.get("completed_task_events_held_at_crash"),
+                 "extra_task_timeouts": r.get("task_timeouts", 0) > base.get("task_timeouts", 0) or (list(r["final"] or []) == ["FAILED", "States.Timeout"] and list(base["final"]) != ["FAILED", "States.Timeout"])}
+            cases.append("(true, %s, %s, [%s], %s)" % (outcome(base["final"], racy), outcome(r["final"], racy), "; ".join(map(str, r["counts"])), "true" if r["status"] == "quiescent" else "false"))
             descs.append(d)
+            children_ok(r, d)
+        if base.get("only_points"):
+            continue
         ops = list(range(0, base["ops"]))
         for j in (ops if thorough and len(ops) < 60 else sorted(rng.sample(ops, min(len(ops), 40 if thorough else 8)))):
-            r = run(definition, data, seed, tmpd, crash_at_op=j)
-            d = {"scenario": kind, "definition": definition, "input": data, "worker_seed": seed, "crash": "inside a handler, at broker operation %d" % j,
+            r = run(definition, data, seed, tmpd, crash_at_op=j, child=child)
+            d = {"scenario": kind, "definition": definition, "child_definition": child, "input": data, "worker_seed": seed, "crash": "inside a handler, at broker operation %d" % j,
                  "without_crash": base["final"], "with_crash": r["final"], "status": r["status"], "requests_per_correlation_id": r["counts"], "error": r.get("error"),
-                 "leftovers": r.get("leftovers"), "terminal_notifications": r.get("terminal_notifications"), "timers_pending_at_crash": r.get("pending_at_crash")}
-            cases.append("(false, %s, %s, [%s], %s)" % (outcome(base["final"]), outcome(r["final"]), "; ".join(map(str, r["counts"])),
+                 "leftovers": r.get("leftovers"), "terminal_notifications": r.get("terminal_notifications"), "timers_pending_at_crash": r.get("pending_at_crash"),
+                 "child_ended_before_reregistration": r.get("child_ended_before_reregistration"), "completed_task_events_held_at_crash": r.get("completed_task_events_held_at_crash"),
+                 "extra_task_timeouts": r.get("task_timeouts", 0) > base.get("task_timeouts", 0) or (list(r["final"] or []) == ["FAILED", "States.Timeout"] and list(base["final"]) != ["FAILED", "States.Timeout"])}
+            cases.append("(false, %s, %s, [%s], %s)" % (outcome(base["final"], racy), outcome(r["final"], racy), "; ".join(map(str, r["counts"])),
                                                          "true" if (r["status"] == "quiescent" or (r["status"] == "exception" and r["final"] is not None)) else "false"))
             if r["status"] == "exception":
                 after_dup.append(d)
             descs.append(d)
+            children_ok(r, d)
     shutil.rmtree(tmpd, ignore_errors=True)
+    for what_, d in child_bad[:3]:
+        ck.violation("%s: %s" % (what_, json.dumps({k: d[k] for k in ("scenario", "crash", "definition", "child_definition")})[:1500]), {"case": d})
     funcs = ["c04_terminal_ok", "c04_same_outcome_ok", "c04_requests_once_ok"]
     what = {"c04_terminal_ok": "after a crash and restart a started execution never reached a terminal status (lost or stuck)",
             "c04_same_outcome_ok": "a crash between two event handlings changed the status or output of the execution",
@@ -150,15 +233,15 @@ def main():
                     ck.known_finding(kf, what[f])
                     continue
                 if shown < 3:
-                    ck.violation("%s: %s" % (what[f], json.dumps({k: d[k] for k in ("scenario", "crash", "without_crash", "with_crash", "status", "requests_per_correlation_id", "error", "definition")})[:1600]),
+                    ck.violation("%s: %s" % (what[f], json.dumps({k: d[k] for k in ("scenario", "crash", "without_crash", "with_crash", "status", "requests_per_correlation_id", "error", "definition", "child_definition")})[:1600]),
                                  {"case": d, "monitor": f})
                     shown += 1
     ck.cov["callbacks_raising_after_duplicate_redelivery"] = len(after_dup)
     ck.add_group("crash_points", len(cases), sum(1 for d in descs if d["with_crash"] is not None), descs[3:5], scenarios=len(scenarios),
                  between_handlers=sum(1 for d in descs if d["crash"].startswith("between")), inside_handlers=sum(1 for d in descs if d["crash"].startswith("inside")))
-    ck.cov["rule"] = ("random machines (sequential with Task/Retry/Catch/Wait/Choice, flat fan-out) on the canonical schedule; for each scenario: a crash + restart at every point between two handler "
+    ck.cov["rule"] = ("random machines (sequential with Task/Retry/Catch/Wait/Choice, flat fan-out, parents launching child executions: fire-and-forget, .sync, .sync:2) on the canonical schedule; for each scenario: a crash + restart at every point between two handler "
                       "invocations (sampled to 12 in the quick tier) compared with the crash-free run, and a crash at individual broker operations inside handlers (no-loss only)")
-    ck.assumptions = ["single crash per run (repeated crashes are not explored)", "file-backed configuration: the execution record itself is volatile, outcomes are read from the terminal notification"]
+    ck.assumptions = ["single crash per run (repeated crashes are not explored)", "when a fan-out fails, which branch's error is reported depends on the order of replies, which a restart changes: for machines with a fan-out only the status FAILED is compared, not the error", "file-backed configuration: the execution record itself is volatile, outcomes are read from the terminal notification; Input/StartDate/StopDate of a child record inside a parent's output are not compared"]
     ck.finish(BASE_TRUST + TRUST)
 
 
@@ -171,6 +254,16 @@ def match_finding(fid, d, known):
             if m.get("crash_kind") and not d["crash"].startswith(m["crash_kind"]):
                 return False
             if m.get("definition_contains") and not all(x in json.dumps(d["definition"]) for x in m["definition_contains"]):
+                return False
+            if m.get("extra_task_timeouts") and not d.get("extra_task_timeouts"):
+                return False
+            if m.get("child_ended_before_reregistration") and not d.get("child_ended_before_reregistration"):
+                return False
+            if m.get("completed_task_events_held_at_crash") and not d.get("completed_task_events_held_at_crash"):
+                return False
+            if m.get("definition_contains_any") and not any(x in json.dumps(d["definition"]) for x in m["definition_contains_any"]):
+                return False
+            if m.get("definition_lacks") and any(x in json.dumps(d["definition"]) for x in m["definition_lacks"]):
                 return False
             if m.get("timer_pending_at_crash") and m["timer_pending_at_crash"] not in (d.get("timers_pending_at_crash") or []):
                 return False
